@@ -283,13 +283,18 @@ class Expander:
         # quick exit: no call to an unknown unit anywhere
         if self._has_candidate(fn, cls, qual):
             work = copy.deepcopy(fn)
+            any_change = False
             for _ in range(MAX_ROUNDS):
                 changed = [False]
                 names = {n.id for n in ast.walk(work) if isinstance(n, ast.Name)} | {a.arg for a in ast.walk(work) if isinstance(a, ast.arg)}
                 work.body = self._block(work.body, cls, names, (qual,), changed)
                 if not changed[0]:
                     break
-            result = work
+                any_change = True
+            if any_change:
+                work._vt_qual = qual          # where the copy came from (class context, recursion guard)
+                work._vt_origin = fn
+                result = work
         self.cache[key] = result
         return result
 
